@@ -1694,8 +1694,9 @@ recur:
     if (status > 0) {
         if (NULL != response.cb) {
             response.cb(response.msg);
-            janet_ev_dec_refcount();
         }
+        /* janet_ev_post_event counted this message as pending work, callback or not */
+        janet_ev_dec_refcount();
         goto recur;
     }
 }
